@@ -1,4 +1,4 @@
-import Proofs.FNodeConv
+import Proofs.FNodeInc
 import Proofs.SyncWitness
 
 /-!
@@ -121,17 +121,73 @@ theorem evOK_of_check {C : Cfg} {ch : PChain} {e : Event} (h : evOKb C ch e = tr
       · cases h
     · cases h
 
+/-- decidable forms of `HdrItemOK` / `DatItemOK` -/
+def hdrItemOKb (C : Cfg) (ch : PChain) (wo : SignedHeader × Oracle) : Bool :=
+  !p2pAdmit wo.2 C.sync.proposerAddr wo.1 ||
+    match ch wo.1.header.height with
+    | some blk => decide (toSH C.key wo.1 = blk.sh)
+    | none => false
+
+def datItemOKb (ch : PChain) (d : Data) : Bool :=
+  match d.metadata with
+  | some m =>
+    match ch m.height with
+    | some blk => decide (d = blk.data)
+    | none => false
+  | none => false
+
+theorem hdrItemOK_of_check {C : Cfg} {ch : PChain} {wo : SignedHeader × Oracle} (h : hdrItemOKb C ch wo = true) :
+    HdrItemOK C ch wo := by
+  intro ha
+  unfold hdrItemOKb at h
+  rw [ha] at h
+  simp only [Bool.not_true, Bool.false_or] at h
+  split at h
+  · rename_i blk hb; exact ⟨blk, hb, by simpa using h⟩
+  · cases h
+
+theorem datItemOK_of_check {ch : PChain} {d : Data} (h : datItemOKb ch d = true) : DatItemOK ch d := by
+  unfold datItemOKb at h
+  split at h
+  · rename_i m hm
+    split at h
+    · rename_i blk hb; exact ⟨m, blk, hm, hb, by simpa using h⟩
+    · cases h
+  · cases h
+
 /-- decidable form of `OpOK` -/
 def opOKb (C : Cfg) (ch : PChain) : HOp → Bool
   | .place _ b o => blobOKb C ch (b, o)
   | .p2p es => es.all (evOKb C ch)
+  | .p2pstore hs ds _ => hs.all (hdrItemOKb C ch) && ds.all (datItemOKb ch)
+  | .p2padd hs ds => hs.all (hdrItemOKb C ch) && ds.all (datItemOKb ch)
   | _ => true
 
 theorem opOK_of_check {C : Cfg} {ch : PChain} {op : HOp} (h : opOKb C ch op = true) : OpOK C ch op := by
   cases op with
   | place da b o => exact blobOK_of_check h
   | p2p es => exact fun e he => evOK_of_check (List.all_eq_true.mp h e he)
+  | p2pstore hs ds hf =>
+    simp only [opOKb, Bool.and_eq_true] at h
+    exact ⟨fun wo hm => hdrItemOK_of_check (List.all_eq_true.mp h.1 wo hm), fun d hm => datItemOK_of_check (List.all_eq_true.mp h.2 d hm)⟩
+  | p2padd hs ds =>
+    simp only [opOKb, Bool.and_eq_true] at h
+    exact ⟨fun wo hm => hdrItemOK_of_check (List.all_eq_true.mp h.1 wo hm), fun d hm => datItemOK_of_check (List.all_eq_true.mp h.2 d hm)⟩
   | _ => trivial
+
+/-- the header of block `k` as the node's P2P header store holds it; a forged one (foreign key under the proposer's
+address) -/
+def fSH (k : Nat) : List (SignedHeader × Oracle) :=
+  ((fch k).map fun b => [({ header := b.sh.hdr, signature := [1], signer := { address := b.sh.signer.addr, pubKey := fPk } }, oHdr)]).getD []
+def fSForged : List (SignedHeader × Oracle) :=
+  ((fch 2).map fun b => [({ header := { b.sh.hdr with appHash := [1, 2, 3] }, signature := [1], signer := { address := fAddr, pubKey := fPk2 } }, oHdr)]).getD []
+def fSD (k : Nat) : List Data := ((fch k).map fun b => [b.data]).getD []
+
+/-- **the P2P stores only**: block 1 arrives in the stores and is polled; the node is killed; blocks 2 and 3 arrive
+while it is down (header store: heights 2, 3; data store: the data of blocks 1 (empty), 2, 3 at heights 1, 2, 3); it is restarted and polls: the
+store loops start at the node's height 1 and hand over everything above it -/
+def fOps4 : List HOp :=
+  [.p2pstore (fSH 1) (fSD 1) true, .crash 1, .p2padd (fSH 2 ++ fSH 3) (fSD 2 ++ fSD 3)]
 
 /-- the events the P2P store loops hand over for the header / data of block `k` -/
 def fPH (k : Nat) : List Event :=
@@ -176,6 +232,40 @@ theorem fIncFacts :
     summary (hrun fC (fOps3 ++ [.run, .crash 2, .run])) = [2, 3, 1, 6, 0, 1, 2] ∧
     (hrun fC (fOps3 ++ [.run, .crash 2])).v.top = 3 ∧
     (hrun fC (fOps3 ++ [.run, .crash 2])).v.scripts.all (fun p => p.2.isEmpty) = true := by
+  decide +kernel
+
+/-- decidable form of `InStores` -/
+def inStoresB (C : Cfg) (ch : PChain) (s : HSt) (k : Nat) : Bool :=
+  match ch k with
+  | none => false
+  | some b =>
+    (match s.hStore[k - C.sync.initialHeight]? with
+     | some (w, o) => p2pAdmit o C.sync.proposerAddr w && decide (toSH C.key w = b.sh)
+     | none => false) &&
+    (decide (IsEmpty b) || decide (s.dStore[k - C.sync.initialHeight]? = some b.data))
+
+theorem inStores_of_check {C : Cfg} {ch : PChain} {s : HSt} {k : Nat} (h : inStoresB C ch s k = true) :
+    InStores C ch s k := by
+  unfold inStoresB at h
+  split at h
+  · cases h
+  · rename_i b hb
+    simp only [Bool.and_eq_true, Bool.or_eq_true, decide_eq_true_eq] at h
+    obtain ⟨h1, h2⟩ := h
+    refine ⟨b, hb, ?_, h2⟩
+    split at h1
+    · rename_i w o hw
+      simp only [Bool.and_eq_true, decide_eq_true_eq] at h1
+      exact ⟨w, o, hw, h1.1, h1.2⟩
+    · cases h1
+
+set_option maxRecDepth 100000 in
+theorem fStoreFacts :
+    fOps4.all (opOKb fC fch) = true ∧
+    summary (hrun fC [fOps4.head!]) = [1, 1, 1, 3, 0, 1, 0] ∧
+    summary (hrun fC fOps4) = [0, 1, 99, 1, 0, 1, 0] ∧
+    summary (hrun fC (fOps4 ++ [.p2pstore [] [] true])) = [3, 1, 1, 9, 1, 1, 0] ∧
+    [1, 2, 3].all (inStoresB fC fch (hrun fC (fOps4 ++ [.p2pstore [] [] true]))) = true := by
   decide +kernel
 
 /-- no fetch script is pending at any DA height -/
